@@ -528,7 +528,9 @@ async def check_value(ctx, v_factory, label):
                 if accepted and d[0] == "ok":
                     # the same variable nested in a list / object literal at a non-null position carries the same value
                     for q, wrap in (("query($v: %s!) { inList%s(v: [$v]) }" % (S, S), lambda x: [x]),
-                                    ("query($v: %s!) { inObj%s(v: {f: $v}) }" % (S, S), lambda x: {"f": x})):
+                                    ("query($v: %s!) { inObj%s(v: {f: $v}) }" % (S, S), lambda x: {"f": x}),
+                                    # the bare value for a list-typed variable: one item, the value itself (never its parts)
+                                    ("query($v: [%s!]) { inList%s(v: $v) }" % (S, S), lambda x: [x])):
                         seen = []
                         await e.execute(q, variables={"v": j}, context={"seen": seen})
                         st.inc("evaluations")
